@@ -55,6 +55,8 @@ class Ctx:
         self.unknown_elementwise_as_uf = False
         self.rand_counter = itertools.count()
         self.stochastic = False
+        self.cur_node = None
+        self.declared = {}  # value name -> list of dims (int or None) from value_info
 
     def fresh_real(self, tag):
         return z3.Real(f"__oob_{tag}_{next(self.fresh)}")
@@ -702,9 +704,61 @@ def _range(ctx, ins, at):
     return [_check_size(T(st.dtype, out))]
 
 
+def _slice_symbolic(ctx, ins, at):
+    """Slice with symbolic starts/ends (dynamic_slice lowering): the extent along each sliced axis
+    is taken from the declared output shape; the obligation is that ONNX's clamped [start, end)
+    really has that extent (otherwise the runtime shape contradicts the declaration)."""
+    x = ins[0]
+    starts, ends = list(ins[1].a.reshape(-1)), list(ins[2].a.reshape(-1))
+    axes = _ints(ins[3]) if len(ins) > 3 and ins[3] is not None else list(range(len(starts)))
+    steps = _ints(ins[4]) if len(ins) > 4 and ins[4] is not None else [1] * len(starts)
+    if any(st != 1 for st in steps):
+        raise NotEncodable("symbolic Slice with step != 1")
+    node = ctx.cur_node
+    decl = ctx.declared.get(node.output[0]) if node is not None else None
+    if decl is None or len(decl) != x.ndim:
+        raise NotEncodable("symbolic Slice without a declared output shape")
+    cur = x.a
+    k = x.kind
+    for s, e, ax in zip(starts, ends, axes):
+        ax %= x.ndim
+        d = cur.shape[ax]
+        if not S.is_sym(s) and not S.is_sym(e):
+            s2 = int(s) + d if int(s) < 0 else int(s)
+            e2 = int(e) + d if int(e) < 0 else int(e)
+            s2, e2 = min(max(s2, 0), d), min(max(e2, 0), d)
+            sl = [slice(None)] * cur.ndim
+            sl[ax] = slice(s2, e2)
+            cur = cur[tuple(sl)]
+            continue
+        L = decl[ax]
+        if not isinstance(L, int):
+            raise NotEncodable("symbolic Slice with unknown declared extent")
+        S_ = S.to_z3_int(s)
+        E_ = S.to_z3_int(e)
+        sn = z3.If(S_ < 0, S_ + d, S_)
+        en = z3.If(E_ < 0, E_ + d, E_)
+        sc = z3.If(sn < 0, 0, z3.If(sn > d, d, sn))
+        ec = z3.If(en < 0, 0, z3.If(en > d, d, en))
+        ctx.obligations.append((ec - sc == L, f"Slice extent along axis {ax} equals the declared {L}"))
+        moved = np.moveaxis(cur, ax, 0)
+        out = np.empty((L,) + moved.shape[1:], dtype=object)
+        hi = max(d - L, 0)
+        for j in range(L):
+            for rr in np.ndindex(*moved.shape[1:]) if moved.shape[1:] else [()]:
+                r = moved[(min(hi + j, d - 1),) + rr] if d else None
+                for st in range(hi - 1, -1, -1):
+                    r = S.ite(sc == st, moved[(st + j,) + rr], r, k)
+                out[(j,) + rr] = r
+        cur = np.moveaxis(out, 0, ax)
+    return [T(x.dtype, cur)]
+
+
 @op("Slice")
 def _slice(ctx, ins, at):
     x = ins[0]
+    if len(ins) > 2 and (not ins[1].is_concrete() or not ins[2].is_concrete()):
+        return _slice_symbolic(ctx, ins, at)
     if len(ins) > 1:
         starts = _ints(ins[1])
         ends = _ints(ins[2])
@@ -832,7 +886,7 @@ def _scatternd(ctx, ins, at):
     x, ind, upd = ins
     red = _s(at.get("reduction", "none"))
     if not ind.is_concrete():
-        raise NotEncodable("ScatterND symbolic indices")
+        return _scatternd_symbolic(ctx, x, ind, upd, red)
     idx = np.array(ind.ints(), dtype=np.int64).reshape(ind.shape)
     out = x.a.copy()
     r = idx.shape[-1]
@@ -855,6 +909,40 @@ def _scatternd(ctx, ins, at):
                 out[tup] = res
             else:
                 out[tup] = comb(cur, u)
+    return [T(x.dtype, out)]
+
+
+def _scatternd_symbolic(ctx, x, ind, upd, red):
+    """updates are applied in order; element e is overwritten when the (symbolic) index tuple hits it"""
+    r = ind.shape[-1]
+    out = x.a.copy()
+    k = x.kind
+    comb = (lambda a, b: b) if red == "none" else _scatter_combine(red, k, x.dtype)
+    tail = x.shape[r:]
+    if x.size * int(np.prod(ind.shape[:-1]) if ind.shape[:-1] else 1) > 4096:
+        raise NotEncodable("symbolic ScatterND too large")
+    for ii in np.ndindex(*ind.shape[:-1]) if ind.shape[:-1] else [()]:
+        tup = [ind.a[ii + (d,)] for d in range(r)]
+        norm = []
+        for d, v in enumerate(tup):
+            n = x.shape[d]
+            if S.is_sym(v):
+                ctx.obligations.append((z3.And(v >= -n, v < n), "ScatterND index in range"))
+                norm.append(z3.If(v < 0, v + n, v))
+            else:
+                if not (-n <= int(v) < n):
+                    raise ModelInvalid("ScatterND index out of range")
+                norm.append(int(v) % n)
+        for head in np.ndindex(*x.shape[:r]):
+            cond = True
+            for d in range(r):
+                cond = S.b_and(cond, S.c_eq(norm[d], head[d], "i"))
+            if cond is False:
+                continue
+            for tt in np.ndindex(*tail) if tail else [()]:
+                u = upd.a[ii + tt]
+                e = head + tt
+                out[e] = S.ite(cond, comb(out[e], u), out[e], k)
     return [T(x.dtype, out)]
 
 
@@ -1631,7 +1719,15 @@ class Scope:
         return False
 
 
+def _record_declared(ctx, g):
+    for vi in list(g.value_info) + list(g.output):
+        tt = vi.type.tensor_type
+        if tt.HasField("shape"):
+            ctx.declared[vi.name] = [int(d.dim_value) if d.HasField("dim_value") else None for d in tt.shape.dim]
+
+
 def eval_graph(ctx: Ctx, g: onnx.GraphProto, scope: Scope, top=False):
+    _record_declared(ctx, g)
     for init in g.initializer:
         if init.name in scope.vals:
             raise ModelInvalid(f"initializer '{init.name}' redefines a value in its scope")
@@ -1806,6 +1902,7 @@ def eval_node(ctx: Ctx, node: onnx.NodeProto, scope: Scope):
         else:
             while ins and ins[-1] is None:
                 ins.pop()
+            ctx.cur_node = node
             try:
                 outs = impl(ctx, ins, at)
             except (ValueError, IndexError, KeyError, TypeError, AttributeError) as e:
